@@ -24,7 +24,7 @@ NOT_APPLICABLE = {
     'C31': "frame condition over the entire framework along API-call histories; per-function frames are proved where they live (C12, C33)",
     'C34': "derivatives come from jax AD / generated code; nothing to put under contract",
 }
-for _p in ['C02','C03','C04','C05','C06','C07','C08','C09','C11','C12','C13','C15','C16','C20','C21','C22','C23','C25','C26','C27','C29','C30','C32','C33']:
+for _p in ['C02','C03','C04','C05','C06','C07','C08','C11','C12','C13','C15','C16','C20','C21','C22','C23','C25','C26','C27','C29','C30','C32']:
     NOT_APPLICABLE.setdefault(_p, NA_DEFAULT)
 
 CLAIMED = {
@@ -33,4 +33,14 @@ CLAIMED = {
         design_ref="DESIGN.md section 3 C10",
         note="Trusted: pyvc VC generator and NumPy model, z3; floats treated as reals (a result may be one ulp outside a bound); assumed contracts: _run_apply/_iter_get_norm touch residuals only; DefaultVector methods are inlined real source.",
         technique="deductive verification: sidecar contracts + symbolic execution of real source -> VCs -> z3; canaries + native replay"),
+    'C09': dict(
+        text="Proof in IEEE-754 double semantics (z3 FP theory; division abstracted as an uninterpreted function constrained by true IEEE facts) over every residual-norm history — the norm returned by each iteration is an arbitrary double (0, tiny, huge, +inf, NaN) — that NonlinearSolver._solve and LinearSolver._solve perform at most maxiter iterations (plus the single forced iteration under complex step), never start an iteration from an iterate that meets atol or rtol, report a failure exactly when the last iterate meets no tolerance, and raise AnalysisError exactly when that failure is reported with err_on_non_converge; Solver.report_failure and the _iter_initialize of NonlinearSolver, NewtonSolver, NonlinearBlockGS, BlockLinearSolver and LinearBlockGS are proved against the abstract contract _solve relies on. Two genuine defects found by these obligations were repaired in /repo (fix: commits).",
+        design_ref="DESIGN.md section 3 C09",
+        note="Trusted: pyvc, z3 FP theory, the IEEE facts assumed for the abstract division (listed in pyvc/ctx.py fdiv). Assumed contracts: _iter_get_norm returns NaN or a non-negative double; _single_iteration/_run_apply do not raise and do not touch solver control state. Not covered: BroydenSolver._iter_initialize, ScipyKrylov/PETSc (external iterations), line-search inner loops.",
+        technique="deductive verification with loop invariants in IEEE-754 (z3 QF_FP); counter-models concretised by bounded history search and replayed on the real solver"),
+    'C33': dict(
+        text="Proof (all lengths, all values over the reals / exact complex pairs) that DefaultVector's in-place operations (iadd/isub/imul incl. slices, __iadd__/__isub__/__imul__, add_scal_vec, set_val, set_vec, asarray, _get_data, dot, get_norm), named-view access (_VecData.set_view, Vector._abs_get_val/_abs_set_val) and scaling (_scale_forward/_scale_reverse, scale_to_norm/scale_to_phys with every mode/solver-ref branch) act on the flat data exactly as the corresponding NumPy formula with a full frame, in all three storage modes (real, complex outside complex step, complex step); scaling to solver units and back is the identity (lemma over the two contracts, proved modularly).",
+        design_ref="DESIGN.md section 3 C33",
+        note="Trusted: pyvc and its NumPy model (validated by native sampling of every contract on real DefaultVectors), z3; reals instead of floats. Not covered: _initialize_data (views tile the root array), set_var's indexer path (C05), PETSc/distributed vectors.",
+        technique="deductive verification: sidecar contracts + symbolic execution of real source -> VCs -> z3; lemma via modular harness; canaries + native sampling"),
 }
